@@ -22,6 +22,8 @@
 
 #include "vrt_main.hpp"
 
+#include <yaclib_std/chrono>
+
 namespace {
 
 enum WK { kBlock = 0, kTimed = 1, kInline = 2, kSticky = 3, kOn = 4, kJob = 5 };
@@ -30,6 +32,7 @@ const char* kWKName[] = {"block", "timed", "inline", "sticky", "on", "job"};
 struct WaiterSpec {
   WK kind = kBlock;
   int deadline = 0;  // virtual ns, timed only
+  bool until = false;  // timed only: WaitUntil(now + deadline) instead of WaitFor(deadline)
 };
 
 struct Op {
@@ -341,7 +344,13 @@ void RunWaiter(Ctx& c, int k) {
     }
     case kTimed: {
       auto d = std::chrono::nanoseconds(spec.deadline);
-      bool r = c.wg != nullptr ? c.wg->WaitFor(d) : c.ev->WaitFor(d);
+      bool r;
+      if (spec.until) {
+        auto t = yaclib_std::chrono::steady_clock::now() + d;
+        r = c.wg != nullptr ? c.wg->WaitUntil(t) : c.ev->WaitUntil(t);
+      } else {
+        r = c.wg != nullptr ? c.wg->WaitFor(d) : c.ev->WaitFor(d);
+      }
       if (r) {
         c.Released(k);
       } else {
@@ -538,8 +547,8 @@ void RunProg(const Prog& p) {
 
 Prog Fixed(const std::string& name, int dl) {
   Prog p;
-  auto W = [&](WK k, int d = 0) {
-    p.waiters.push_back(WaiterSpec{k, d});
+  auto W = [&](WK k, int d = 0, bool until = false) {
+    p.waiters.push_back(WaiterSpec{k, d, until});
   };
   auto D = [&](int units, std::vector<Op> ops) {
     p.workers.push_back(WorkerSpec{units, std::move(ops)});
@@ -560,6 +569,10 @@ Prog Fixed(const std::string& name, int dl) {
     D(1, {{'d', 0}});
     D(1, {{'d', 0}});
     W(kTimed, dl);
+  } else if (name == "wg/until_vs_done") {
+    D(1, {{'d', 0}});
+    D(1, {{'d', 0}});
+    W(kTimed, dl, true);
   } else if (name == "wg/add_done") {
     D(1, {{'a', 0}, {'d', 0}, {'d', 0}});
     W(kBlock);
@@ -661,6 +674,7 @@ Prog Mixed(std::uint64_t seed) {
     WaiterSpec w;
     w.kind = static_cast<WK>(pick(5));
     w.deadline = 10 * (1 + pick(12));
+    w.until = pick(2) == 1;
     p.waiters.push_back(w);
   }
   return p;
@@ -684,7 +698,7 @@ std::string Describe(const Prog& p) {
   for (auto& w : p.waiters) {
     s += std::string(" W") + kWKName[w.kind];
     if (w.kind == kTimed) {
-      s += std::to_string(w.deadline);
+      s += (w.until ? "U" : "F") + std::to_string(w.deadline);
     }
   }
   return s;
@@ -707,7 +721,7 @@ int main(int argc, char** argv) {
   }
   // timed scenarios: the deadline is a scenario parameter (virtual time advances 10 ns per scheduler step)
   for (int dl : {10, 20, 30, 50, 80}) {
-    for (const char* n : {"wg/timed_vs_done", "ose/timed_vs_set"}) {
+    for (const char* n : {"wg/timed_vs_done", "ose/timed_vs_set", "wg/until_vs_done"}) {
       Prog p = Fixed(n, dl);
       m.Scenario(std::string(n) + "/dl=" + std::to_string(dl), [p] {
         RunProg(p);
